@@ -332,8 +332,16 @@ def run(rep: Report, tier: str) -> None:
                                 f"documented Time_Period input \"{ex}\" is normalised to {norm!r} and rejected by the load regex"))
     rep.floor("documented Time_Period examples", nex, 10)
     rep.analysed = {"period_limits": limits, "docs_time_formats": doc_fmts, "docs_time_period_examples": nex}
-    # ---- R19.4 CSV path: a non-integral value in an Integer column is rejected (producer/consumer agreement, E6) ----
-    rep.rule("R19.4", "CSV loader: the read type chosen for an Integer column and the SELECT expression built from it reject non-integral values (no silent rounding)")
+    integer_csv_guard(P, rep, "R19.4")
+    rep.assumptions = ["DuckDB regexp_matches has search semantics (patterns are anchored explicitly)",
+                       "the load regex is applied to the value after vtl_period_normalize (read from _validate_loaded_table)",
+                       "DuckDB read_csv with an integral column type rounds fractional literals instead of rejecting them (observed once on the installed DuckDB while writing R19.4)"]
+
+
+def integer_csv_guard(P: Program, rep: Report, rule: str) -> None:
+    """CSV path: a non-integral value in an Integer column is rejected (producer/consumer agreement of get_csv_read_type and
+    build_select_columns, lowered with the finite evaluator).  Shared with C20: validate_dataset rejects such a value (0-3-1-6)."""
+    rep.rule(rule, "CSV loader: the read type chosen for an Integer column and the SELECT expression built from it reject non-integral values (no silent rounding)")
     from sa import structmodel as sm
     from sa.e6 import Unmodelled
     grt, bsc = P.func(f"{VAL}.get_csv_read_type"), P.func(f"{VAL}.build_select_columns")
@@ -344,23 +352,20 @@ def run(rep: Report, tier: str) -> None:
             rt = Interp(P, externals=ext).call(grt, {"comp": comp})
             cols = Interp(P, externals=ext).call(bsc, {"components": {"I": comp}, "keep_columns": ["I"], "csv_dtypes": {"I": rt}, "dataset_name": "DS", "type_overrides": None})
         except (Unmodelled, Raised) as e:
-            raise AnalysisError(f"R19.4: CSV select builder outside the evaluator's language: {e}")
+            raise AnalysisError(f"{rule}: CSV select builder outside the evaluator's language: {e}")
         expr = cols[0] if cols else ""
-        rep.instance("R19.4", f"integer-csv/{rn}", nontrivial=True, sample={"read_type": rt, "select": " ".join(str(expr).split())[:160]})
+        rep.instance(rule, f"integer-csv/{rn}", nontrivial=True, sample={"read_type": rt, "select": " ".join(str(expr).split())[:160]})
         integral_read = str(rt).upper().split("(")[0] in ("BIGINT", "INTEGER", "INT", "SMALLINT", "HUGEINT", "TINYINT")
         guarded = "error(" in str(expr).lower() and ("floor(" in str(expr).lower() or "trunc(" in str(expr).lower() or "% 1" in str(expr) or "round(" in str(expr).lower())
         if integral_read:
-            rep.add(Finding("R19.4", f"R19.4/integer-csv/{rn}", grt.module.rel, grt.node.lineno, grt.qualname,
+            rep.add(Finding(rule, f"{rule}/integer-csv/{rn}", grt.module.rel, grt.node.lineno, grt.qualname,
                             f"an Integer {rn} is read from CSV with the integral column type {rt}: DuckDB's CSV reader rounds a literal such as 1.5 to 2 while parsing (no error, "
                             f"ignore_errors or not), so the fractional value is accepted and two rows 7.25 / 7 collapse into one key; the read type must keep the fraction "
                             f"(DOUBLE / DECIMAL / VARCHAR) for the select expression to be able to reject it"))
         elif not guarded:
-            rep.add(Finding("R19.4", f"R19.4/integer-csv/{rn}", bsc.module.rel, bsc.node.lineno, bsc.qualname,
+            rep.add(Finding(rule, f"{rule}/integer-csv/{rn}", bsc.module.rel, bsc.node.lineno, bsc.qualname,
                             f"an Integer {rn} read from CSV as {rt} is loaded with `{' '.join(str(expr).split())[:140]}`: no test of the decimal part and the cast to BIGINT rounds, so 1.5 is accepted "
                             f"as 2 instead of being rejected with DataLoadError 0-3-1-6 (the read type and the branch of build_select_columns that guards it no longer agree)"))
-    rep.assumptions = ["DuckDB regexp_matches has search semantics (patterns are anchored explicitly)",
-                       "the load regex is applied to the value after vtl_period_normalize (read from _validate_loaded_table)",
-                       "DuckDB read_csv with an integral column type rounds fractional literals instead of rejecting them (observed once on the installed DuckDB while writing R19.4)"]
 
 
 def loaded_table_checks_on_every_path(P: Program, rep: Report, rule: str) -> None:
